@@ -115,8 +115,11 @@ def special(rng):
 
 
 def gen_case(rng, i, tier):
+    from .c08 import bound_repeat
     src, prog = program(rng, i, tier)
     osrc, other = program(rng, i + 7919, tier)
+    for _, _, data in list(prog) + list(other):
+        bound_repeat(data)
     return {'src': src, 'prog': [list(p) for p in prog], 'other': [list(p) for p in other], 'fmt': rng.choice(['json', 'yaml', 'json-pretty', 'toml', 'json']), 'fresh': i % 8 == 0}
 
 
